@@ -120,10 +120,17 @@ C13Guards(r, o) == {<<"G_C13_Https", G_C13_Https(r.url, o)>>, <<"G_C13_NoQuery",
                     \* a plain legitimate URL of a properly configured client must work (non-vacuity)
                     <<"G_C13_LegitimateWorks", (r.url = PlainLegit /\ (r.client \in {"domains", "both"} \/
                                                   (r.client = "patterns" /\ r.site # "cors"))) => o.redirected>>}
-InC13(r) == \E sc \in {"https", "http", "HTTPS", "javascript", "none", "schemerel"}, h \in HostClasses,
+\* schemes that merely START like https
+LookalikeSchemes == {"httpsx", "https+app", "HTTPS.app"}
+\* validator_after_loose: the validator is asked about the same URL for the permissive client first - what it then says
+\* for this client must not depend on that
+InC13(r) == \E sc \in {"https", "http", "HTTPS", "javascript", "none", "schemerel"} \cup LookalikeSchemes, h \in HostClasses,
                p \in {"none", "443", "8443"}, pa \in {"plain", "empty", "dotdot", "encdotdot", "mixdotdot", "double"},
-               q \in {"none", "query", "emptyq", "semicolon", "badescape"}, k \in Quirks, c \in ClientCfgs, site \in {"validator", "authorize", "cors"} :
+               q \in {"none", "query", "emptyq", "semicolon", "badescape"}, k \in Quirks, c \in ClientCfgs,
+               site \in {"validator", "authorize", "cors", "validator_after_loose"} :
                /\ site = "cors" => (pa = "plain" /\ q = "none" /\ k \in {"none", "userinfo_domain", "userinfo_pw"})
+               /\ sc \in LookalikeSchemes => (k = "none" /\ q = "none" /\ p = "none" /\ site # "validator_after_loose")
+               /\ site = "validator_after_loose" => (c \in {"domains", "patterns", "both", "neither"} /\ p = "none" /\ k \in {"none", "userinfo_domain"})
                /\ r = [url |-> [scheme |-> sc, host |-> h, port |-> p, path |-> pa, query |-> q, quirk |-> k],
                     client |-> c, site |-> site]
 
